@@ -398,7 +398,7 @@ func init() {
 						}
 						if !found {
 							// buffer discipline of the state machine: strconv.Atoi(buffer.String()) in the port state
-							if f == sm.An.fn {
+							if sm.An != nil && f == sm.An.fn {
 								if ok, why := portBufferDigitsOnly(c, sm, call); ok {
 									s.OK(key, pos, why, props...)
 									continue
